@@ -28,23 +28,23 @@ import (
 )
 
 type waiter struct {
-	ch       <-chan struct{}
-	piece    uint32
-	id       int
+	ch           <-chan struct{}
+	piece        uint32
+	id           int
 	expectClosed bool
-	why      string
+	why          string
 }
 
 type model struct {
-	sw      *swarm.Swarm
-	tr      *swarm.Tor
-	prios   map[uint32][]int8 // direct consumers' registrations
-	waiters []*waiter
-	nextW   int
-	readers []*rd
-	stats   map[string]int
-	mu      sync.Mutex // model state (events may be issued from two goroutines)
-	pendingReports []uint32
+	sw                *swarm.Swarm
+	tr                *swarm.Tor
+	prios             map[uint32][]int8 // direct consumers' registrations
+	waiters           []*waiter
+	nextW             int
+	readers           []*rd
+	stats             map[string]int
+	mu                sync.Mutex // model state (events may be issued from two goroutines)
+	pendingReports    []uint32
 	endedInFirstPiece bool // some reader was closed / ended / cancelled while positioned in piece 0
 }
 
